@@ -181,7 +181,7 @@ def errname(e):
 def files_of(st):
     if isinstance(st, DemoStorage):
         return files_of(st.base) + files_of(st.changes)
-    fn = getattr(st, '_file_name', None)
+    fn = getattr(st, '_file_name', None)       # (HexStorage delegates attribute access to what it wraps)
     return [fn] if fn else []
 
 
@@ -246,6 +246,20 @@ class Real:
         elif kind == 'blob':
             p = os.path.join(self.dir, 's%d.fs' % self.n)
             s = FileStorage(p, blob_dir=p + '.blobs')
+        elif kind == 'hexmapping':
+            from ZODB.tests.hexstorage import HexStorage
+            s = HexStorage(MappingStorage('m%d' % self.n))
+        elif kind == 'hexfile':
+            from ZODB.tests.hexstorage import HexStorage
+            s = HexStorage(FileStorage(os.path.join(self.dir, 's%d.fs' % self.n)))
+        elif kind == 'cfgmapping':
+            import ZODB.config
+            s = ZODB.config.storageFromString('<mappingstorage>\n name cm%d\n</mappingstorage>' % self.n)
+        elif kind == 'cfgfile':
+            import ZODB.config
+            s = ZODB.config.storageFromString(
+                '<filestorage>\n path %s\n create true\n pack-gc false\n pack-keep-old false\n</filestorage>'
+                % os.path.join(self.dir, 's%d.fs' % self.n))
         else:
             raise InfraError('kind %r' % kind)
         self.all.append(s)
@@ -297,6 +311,24 @@ class Real:
                 snap = dump(top)
                 if c == 'push':
                     new = top.push() if isinstance(top, DemoStorage) else DemoStorage(base=top)
+                elif t[1] in ('cfgmapping', 'cfgfile') and not isinstance(top, DemoStorage) \
+                        and isinstance(top, FileStorage):
+                    # the whole demo storage from a configuration section over the (closed and reopened) base file
+                    import ZODB.config
+                    path, bd = top._file_name, getattr(top, 'blob_dir', None)
+                    top.close()
+                    self.n += 1
+                    chg = ('<mappingstorage changes>\n name cc%d\n </mappingstorage>' % self.n) \
+                        if t[1] == 'cfgmapping' else \
+                        ('<filestorage changes>\n path %s\n create true\n </filestorage>'
+                         % os.path.join(self.dir, 's%d.fs' % self.n))
+                    new = ZODB.config.storageFromString(
+                        '<demostorage>\n name cfgdemo\n <filestorage base>\n path %s\n%s </filestorage>\n %s\n'
+                        '</demostorage>' % (path, (' blob-dir %s\n' % bd) if bd else '', chg))
+                    self.stack[-1] = top = new.base
+                    self.all.append(new.base)
+                    self.all.append(new.changes)
+                    snap = dump(top)
                 else:
                     ch = self.make(t[1])
                     if isinstance(top, DemoStorage):
@@ -356,10 +388,21 @@ class Real:
                 return 'ok' + self.check_lower()
             if c == 'pack':
                 if isinstance(top, DemoStorage):
-                    top.pack(pack_time(t[1]), referencesf)
+                    if len(t) > 2:
+                        top.pack(pack_time(t[1]), referencesf, gc=(t[2] == 't'))
+                    else:
+                        top.pack(pack_time(t[1]), referencesf)
                 else:
                     top.pack(pack_time(t[1]), referencesf, gc=False)
                 return 'ok' + self.check_lower()
+            if c == 'undolog':
+                a = [abs_tid(base64.decodebytes(d['id'] + b'\n')) for d in top.undoLog(0, 1000)]
+                b = [abs_tid(base64.decodebytes(d['id'] + b'\n')) for d in top.undoInfo(0, 1000)]
+                return '[' + ','.join(map(tstr, a)) + ']' + ('' if a == b else ' undoInfo-differs:%s' % b)
+            if c == 'api':
+                su = getattr(top, 'supportsUndo', None)
+                return 'len=%d txn=%d undo=%d' % (len(top), top.tpc_transaction() is not None,
+                                                  1 if (su is not None and su()) else 0)
             if c == 'newoid':
                 draws = [] if t[1] == '-' else [int(x) for x in t[1].split(',')]
                 FAKE.queue = list(draws)
@@ -457,7 +500,8 @@ class Level:
         self.txn = None          # (x, tid, {oid: data})
         self.packed = 0
         self.undo_tids = []
-        self.can_undo = kind in ('file', 'blob')
+        self.can_undo = kind in ('file', 'blob', 'hexfile', 'cfgfile')
+        self.file_backed = self.can_undo
 
 
 class World:
@@ -630,9 +674,13 @@ class World:
                 return None
             # a pack may refuse to run (it must then change nothing: the reads that follow are judged
             # against the unpacked history); its return value is not the property's business
+            if t[2:] == ['t']:
+                return None                      # gc=True is refused when there is a base
             if real is None or real.startswith('ok'):
                 lv.packed = max(lv.packed, int(t[1]))
             return None
+        if c == 'undolog':
+            return ('undolog', lv.mark) if lv.can_undo else None
         if c == 'newoid':
             return ('newoid', lv)
         # ---- queries
@@ -714,6 +762,14 @@ def judge(op, real, exp, world, present):
             return ('commit through the demo storage got tid %d, not above the last transaction %d of the '
                     'merged history' % (tid, exp[1]))
         return None
+    if isinstance(exp, tuple) and exp[0] == 'undolog':
+        if not real.startswith('[') or ' ' in real:
+            return 'undoLog/undoInfo failed or disagree: %s' % real
+        mine = {t for t, _ in world.H[exp[1]:]}
+        got = [int(x) for x in real[1:-1].split(',') if x]
+        if any(x not in mine for x in got) or got != sorted(got, reverse=True):
+            return 'undoLog lists %s; the transactions written through this storage are %s' % (got, sorted(mine))
+        return None
     if isinstance(exp, tuple) and exp[0] == 'iter':
         _, P, lo, hi = exp
         if not real.startswith('['):
@@ -745,7 +801,7 @@ def run_oracle(ops, real, present):
 SIGS = {'lb': 'loadBefore', 'load': 'load', 'ls': 'loadSerial', 'gt': 'getTid', 'hist': 'history',
         'last': 'lastTransaction', 'iter': 'iterator', 'iterr': 'iterator', 'store': 'store',
         'newoid': 'new_oid', 'pop': 'pop', 'push': 'push', 'pushwith': 'push', 'finish': 'demo-tid-below-base',
-        'cc': 'readCurrent'}
+        'cc': 'readCurrent', 'undolog': 'undoLog'}
 
 
 def signature(ops, i, real):
@@ -769,7 +825,8 @@ class Gen:
         self.k = 0
         self.dc = 100
         self.x = 0
-        self.pool = [0, 1, 2, 3, 4, 5]
+        # a few small oids plus two with boundary shapes (>= 2^16, 0xff / 0x00 bytes, high bit set)
+        self.pool = [0, 1, 2, 3] + rng.sample([4, 5, 255, 256, 65535, 65536, 2 ** 32, 2 ** 63 + 5, 2 ** 64 - 2], 2)
         self.fresh = 50
         self.aborted_issued = set()
 
@@ -851,6 +908,8 @@ class Gen:
             self.emit('cc %d %d %d' % (x, o, ser))
         cands = sorted(set(self.pool) | lv.issued)
         n = rng.choice([1, 1, 2, 2, 3])
+        if lv.file_backed and w.H[lv.mark:] and lv.txn is not None and rng.random() < 0.08:
+            n = 0                                # an EMPTY transaction (file-backed layers; never their first)
         chosen = rng.sample(cands, min(n, len(cands)))
         stored = 0
         for o in chosen:
@@ -869,7 +928,15 @@ class Gen:
             exp = self.emit('store %d %d %d %d' % (x, o, ser, self.newdata()))
             if exp == 'ok' or exp is None:
                 stored += 1
+            elif exp == 'err:Conflict' and rng.random() < 0.5:
+                # failure, then the same operation again with the right serial
+                if self.emit('store %d %d %d %d' % (x, o, c[0], self.newdata())) == 'ok':
+                    stored += 1
         touched_issued = [o for o in chosen if o in lv.issued]
+        if n == 0:
+            self.emit('vote %d' % x)
+            self.emit('finish %d' % x)
+            return
         if stored == 0 or rng.random() < (0.45 if touched_issued else 0.15):
             self.aborted_issued.update(touched_issued)     # issued, stored, aborted: must stay issued
             self.emit('abort %d' % x)
@@ -991,9 +1058,11 @@ class Gen:
             self.ops.append('gt %d' % o)
             for t in (tids if full else rng.sample(tids, min(3, len(tids)))):
                 self.ops.append('ls %d %d' % (o, t))
-            for n in ((1, 2, 3, 50) if full else (rng.choice([1, 2, 50]),)):
-                self.ops.append('hist %d %d' % (o, n))
+            for n in ((1, 2, 3, 4, 5, 50) if full else (rng.choice([1, 2, 3, 50]),)):
+                self.ops.append('hist %d %d' % (o, n))     # windows inside a layer and spanning layers
         self.ops.append('last')
+        self.ops.append('api')
+        self.ops.append('undolog')
         self.ops.append('iter')
         if tids:
             a, z = sorted([rng.choice(bounds), rng.choice(bounds)])
@@ -1003,7 +1072,11 @@ class Gen:
     def maybe_pack(self):
         rng, w = self.rng, self.w
         lv = w.top
-        if lv.temp or lv.txn is not None:
+        if lv.txn is not None:
+            return
+        demo = len(w.levels) > 1
+        if demo and not lv.temp and rng.random() < 0.15:
+            self.emit('pack %d t' % (UNIT * self.k + UNIT // 2))      # gc=True with a base: refused
             return
         mine = [t for t, _ in w.H[lv.mark:]]
         # FileStorage.pack(gc=False) raises PackError when an undo record after the pack time points back to
@@ -1012,11 +1085,13 @@ class Gen:
         floor = max([lv.packed] + lv.undo_tids)
         cands = [t - t % UNIT + UNIT // 2 for t in mine if t - t % UNIT + UNIT // 2 > floor]
         if cands:
-            self.emit('pack %d' % rng.choice(cands))
+            # gc=None (explicit changes only: with implicit ones it is the changes' own gc) or gc=False
+            form = ' f' if (demo and (lv.temp or rng.random() < 0.5)) else ''
+            self.emit('pack %d%s' % (rng.choice(cands), form))
 
     def build(self):
         rng = self.rng
-        bk = rng.choice(['mapping', 'file', 'blob'])
+        bk = rng.choice(['mapping', 'file', 'blob', 'hexmapping', 'hexfile'])
         self.emit('reset ' + bk)
         for _ in range(rng.choice([1, 2, 3, 4, 5])):
             self.txn()
@@ -1024,7 +1099,7 @@ class Gen:
             self.maybe_pack()
         depth = rng.choice([1, 1, 2, 3])
         for level in range(depth):
-            ck = rng.choice(['mapping', 'file', 'blob', 'temp'])
+            ck = rng.choice(['mapping', 'file', 'blob', 'temp', 'temp', 'hexmapping', 'hexfile', 'cfgmapping', 'cfgfile'])
             first = rng.choice([rng.choice(self.pool), 40 + level, 60 + rng.randrange(5)])
             if ck == 'temp':
                 self.emit('push %d' % first)
@@ -1265,10 +1340,15 @@ def run_blob_case(rng, tmp):
         for level in range(rng.choice([1, 2, 3])):
             lower = stack[-1]
             snaps.append(dump(lower))
-            ck_kind = rng.choice(['blob', 'temp'])
-            if ck_kind == 'blob':
+            ck_kind = rng.choice(['blob', 'temp', 'blobwrap-file', 'blobwrap-mapping'])
+            if ck_kind != 'temp':
                 p = os.path.join(d, 'c%d.fs' % level)
-                ch = FileStorage(p, blob_dir=p + '.blobs', create=True)
+                if ck_kind == 'blob':
+                    ch = FileStorage(p, blob_dir=p + '.blobs', create=True)
+                else:
+                    # the BlobStorage proxy around a storage without blob support of its own
+                    inner = FileStorage(p, create=True) if ck_kind == 'blobwrap-file' else MappingStorage('bw%d' % level)
+                    ch = ZODB.blob.BlobStorage(p + '.wblobs', inner)
                 new = lower.push(ch) if isinstance(lower, DemoStorage) else DemoStorage(base=lower, changes=ch)
             else:
                 new = lower.push() if isinstance(lower, DemoStorage) else DemoStorage(base=lower)
@@ -1701,6 +1781,118 @@ def run_resolve_pair(rng, tmp):
     return bad, log
 
 
+# ---------------------------------------------------------------- two demo storages over ONE base
+def run_shared_base_case(rng, tmp):
+    """Two DemoStorage instances layered over the same base storage object, their two-phase commits
+    interleaved step by step (explicit tids, clock tids with a stalled clock, empty transactions): each reads
+    as base ++ its OWN changes, the shared base never changes, and closing one (close_base_on_close=False)
+    leaves the other one and the base fully usable."""
+    import time
+    d = os.path.join(tmp, 'sharedbase')
+    shutil.rmtree(d, ignore_errors=True)
+    os.makedirs(d)
+    FAKE.queue = []
+    log = []
+    bad = None
+    opened = []
+    realtime = time.time
+    try:
+        bk = rng.choice(['mapping', 'file'])
+        base = MappingStorage('shared') if bk == 'mapping' else FileStorage(os.path.join(d, 'b.fs'), create=True)
+        opened.append(base)
+        commit(base, u64(real_tid(UNIT)), [(1, 0, 1), (2, 0, 2)])
+        commit(base, u64(real_tid(2 * UNIT)), [(1, real_tid(UNIT), 3)])
+        HB = [(UNIT, {1: 1, 2: 2}), (2 * UNIT, {1: 3})]
+        snap = dump(base)
+        demos, H, kinds = {}, {}, {}
+        for n in 'AB':
+            kinds[n] = rng.choice(['mapping', 'file', None])
+            ch = None if kinds[n] is None else (MappingStorage('ch' + n) if kinds[n] == 'mapping' else FileStorage(
+                os.path.join(d, 'c%s.fs' % n), create=True))
+            demos[n] = DemoStorage(base=base, changes=ch, close_base_on_close=False)
+            opened.append(demos[n])
+            H[n] = list(HB)
+        log.append('base %s, changes %s / %s' % (bk, kinds['A'], kinds['B']))
+        k = 2
+        dc = 700
+        for rnd in range(rng.choice([1, 2, 3])):
+            mode = rng.choice(['explicit', 'explicit', 'clock-stall'])
+            seqs = {n: ['begin', 'store', 'vote', 'finish'] for n in 'AB'}
+            order = []
+            while seqs['A'] or seqs['B']:
+                n = rng.choice([x for x in 'AB' if seqs[x]])
+                order.append((n, seqs[n].pop(0)))
+            txns = {n: TransactionMetaData() for n in 'AB'}
+            writes = {}
+            for n in 'AB':
+                if rng.random() < 0.15:
+                    writes[n] = {}                                   # an empty transaction
+                else:
+                    dc += 1
+                    writes[n] = {rng.choice([1, 2, 7]): dc}
+            tids = {}
+            if mode == 'clock-stall':
+                time.time = StepClock('stall', 1)
+            try:
+                for n, step in order:
+                    dm = demos[n]
+                    if step == 'begin':
+                        if mode == 'explicit':
+                            k += 1
+                            dm.tpc_begin(txns[n], real_tid(UNIT * k))
+                        else:
+                            dm.tpc_begin(txns[n])
+                    elif step == 'store':
+                        for o, v in writes[n].items():
+                            r = [x for x in H[n] if o in x[1]]
+                            dm.store(p64(o), real_tid(r[-1][0]) if r else z64, pickle_of(v), '', txns[n])
+                    elif step == 'vote':
+                        dm.tpc_vote(txns[n])
+                    else:
+                        tids[n] = dm.tpc_finish(txns[n])
+            finally:
+                time.time = realtime
+            for n in 'AB':
+                t = abs_tid(tids[n])
+                if H[n] and t <= H[n][-1][0]:
+                    bad = 'storage %s: commit tid %s is not above its last transaction %s' % (n, t, H[n][-1][0])
+                H[n].append((t, writes[n]))
+            k = max([k] + [H[n][-1][0] // UNIT + 1 for n in 'AB'])
+            log.append('round %s order %s' % (mode, ' '.join(a + ':' + b for a, b in order)))
+            if bad:
+                break
+        for n in 'AB':
+            if not bad:
+                bad = judge_history(demos[n], H[n], [0, 2], [bk, kinds[n] or 'mapping'])
+                if bad:
+                    bad = 'storage %s of two over one base: %s' % (n, bad)
+        if not bad and dump(base) != snap:
+            bad = 'the shared base changed'
+        if not bad:
+            first = rng.choice('AB')
+            other = 'AB'.replace(first, '')
+            demos[first].close()
+            log.append('closed ' + first)
+            if not is_open(base):
+                bad = 'closing one demo storage (close_base_on_close=False) closed the shared base'
+            else:
+                bad = judge_history(demos[other], H[other], [0, 2], [bk, kinds[other] or 'mapping'])
+                if bad:
+                    bad = 'after closing the other demo storage over the same base: ' + bad
+    except Exception as e:
+        import traceback
+        bad = bad or 'shared-base scenario raised %s: %s' % (type(e).__name__, traceback.format_exc()[-600:])
+    finally:
+        time.time = realtime
+        for st in reversed(opened):
+            try:
+                st.close()
+            except Exception:
+                pass
+        shutil.rmtree(d, ignore_errors=True)
+    return bad, log
+
+
 # ---------------------------------------------------------------- close(): who owns what
 def is_open(st, oid=1):
     try:
@@ -1894,7 +2086,8 @@ def main(argv=None):
             ncases = 0
             probes = case['probe']
         elif case.get('blob_seed') is not None or case.get('overlap') or case.get('sched_commit') \
-                or case.get('close_seed') is not None or case.get('resolve_seed') is not None:
+                or case.get('close_seed') is not None or case.get('resolve_seed') is not None \
+                or case.get('shared_seed') is not None:
             ncases = 0
             probes = False
         else:
@@ -1997,6 +2190,18 @@ def main(argv=None):
         ck.case(['resolve', rlog], True, None)
         if bad:
             ck.violation('C16:resolved-conflict', bad, dict(resolve_seed=rs, log=rlog))
+    # ---- two demo storages over one shared base
+    sb_seeds = []
+    if rcase.get('shared_seed') is not None:
+        sb_seeds = [rcase['shared_seed']]
+    elif not ck.replay_path:
+        sb_seeds = [ck.rng.randrange(10 ** 12) for _ in range(30 if not ck.thorough else 600)]
+    for ss in sb_seeds:
+        bad, slog = run_shared_base_case(_random.Random(ss), ck.tmp)
+        ck.count('shared-base:cases')
+        ck.case(['shared-base', slog], True, None)
+        if bad:
+            ck.violation('C16:shared-base', bad, dict(shared_seed=ss, log=slog))
     # ---- close(): pushed layers and the ownership flags
     close_seeds = []
     if rcase.get('close_seed') is not None:
